@@ -376,10 +376,19 @@ def target (P : Prog) : PyVal → Option (Nat × Fn)
     | none => none
   | _ => none
 
-/-- `except pat:` -/
+/-- classes the language can raise that derive from `BaseException` but not from `Exception` (a generator's
+`GeneratorExit`, `asyncio.CancelledError`, a user class `Boom(BaseException)`): `except Exception` lets them pass.
+(`SystemExit` / `KeyboardInterrupt` are not in the language: whether they are reported to the requester at all is a
+configuration matter, `propagate_*_locally`.) -/
+def baseOnlyClasses : List Name := [nameOf "GeneratorExit", nameOf "CancelledError", nameOf "Boom"]
+
+def baseExceptionName : Name := nameOf "BaseException"
+
+/-- `except pat:` — `none` is `except Exception`, `some "BaseException"` catches everything, any other class
+catches exactly itself (the classes of the language are pairwise unrelated otherwise) -/
 def catches : Option Name → Name → Bool
-  | none, _ => true
-  | some c, d => c == d
+  | none, d => !baseOnlyClasses.contains d
+  | some c, d => c == d || c == baseExceptionName
 
 /-! ### state: invocation counters, and each side's `_local_objects` keys -/
 
